@@ -226,7 +226,22 @@ func (c *Canonicalizer) reconstructBlockInstructions(fn *ssa.Function) {
 	tails := make(map[*ssa.BasicBlock][]ssa.Instruction)
 	terminators := make(map[*ssa.BasicBlock]ssa.Instruction)
 
-	for _, b := range fn.Blocks {
+	// Visit the blocks in canonical order (the order in which they are emitted), not in SSA
+	// construction order: instructions moved to another block (hoisted calls) are appended in
+	// visiting order, and that order must not depend on how the source arranged its branches.
+	ordered := make([]*ssa.BasicBlock, len(fn.Blocks))
+	copy(ordered, fn.Blocks)
+	canonIndex := func(b *ssa.BasicBlock) int {
+		if id, ok := c.blockMap[b]; ok && len(id) > 1 {
+			if n, err := strconv.Atoi(id[1:]); err == nil {
+				return n
+			}
+		}
+		return len(fn.Blocks) + b.Index
+	}
+	sort.SliceStable(ordered, func(i, j int) bool { return canonIndex(ordered[i]) < canonIndex(ordered[j]) })
+
+	for _, b := range ordered {
 		for _, instr := range b.Instrs {
 			if c.VirtualizedInstrs[instr] {
 				continue
